@@ -25,12 +25,18 @@ struct Region {
     /// PROT_NONE fence [start,end): never written, so its true content is zero; /proc/<pid>/mem and
     /// PTRACE_PEEKDATA read it (FOLL_FORCE), process_vm_readv does not
     fence: (u64, u64),
+    /// addresses inside the mapping that hold 0xFF instead of the pattern (all-ones words are
+    /// what PTRACE_PEEKDATA returns as -1)
+    ones: Vec<(u64, u64)>,
 }
 
 impl Region {
     /// true byte at an address, None when nothing is mapped there
     fn truth(&self, a: u64) -> Option<u8> {
         if self.start <= a && a < self.end {
+            if self.ones.iter().any(|(s, e)| *s <= a && a < *e) {
+                return Some(0xff);
+            }
             Some(pat(a))
         } else if self.fence.0 <= a && a < self.fence.1 {
             Some(0)
@@ -64,6 +70,14 @@ pub fn run(rep: &mut Report, thorough: bool) {
             m_end = m_start + pages * PAGE;
             fence_idx = b.anon(2, 0, 0, Fill::Keep);
         }
+        // all-ones runs: an aligned word, an unaligned run, the last 8 / 16 bytes of the mapping, the first word
+        let ones: Vec<(u64, u64)> = vec![(m_start, m_start + 8), (m_start + 64, m_start + 72), (m_start + 4099, m_start + 4099 + 11), (m_start + 8 * PAGE + 16, m_start + 8 * PAGE + 48), (m_end - if ti % 2 == 0 { 8 } else { 16 }, m_end)];
+        {
+            let mi = b.spec.regions.iter().position(|r| r.addr == m_start).unwrap();
+            for (s, e) in &ones {
+                b.spec.regions[mi].pokes.push((*s, vec![0xff; (*e - *s) as usize]));
+            }
+        }
         b.sentinel(&mut rng, Mode::Pause, &StackShape::default(), None, None);
         let t = match Target::spawn(b.spec.clone(), &b.opts) {
             Ok(t) => t,
@@ -73,7 +87,7 @@ pub fn run(rep: &mut Report, thorough: bool) {
             }
         };
         let fa = b.spec.regions[fence_idx].addr;
-        let region = Region { start: m_start, end: m_end, fence: (fa, fa + 2 * PAGE) };
+        let region = Region { start: m_start, end: m_end, fence: (fa, fa + 2 * PAGE), ones: ones.clone() };
         // suspend through the real code path (this thread becomes the tracer)
         let mut dumper = match PtraceDumper::new_report_soft_errors(t.pid, std::time::Duration::from_secs(10), Default::default(), error_graph::strategy::DontCare) {
             Ok(d) => d,
@@ -130,7 +144,7 @@ pub fn run(rep: &mut Report, thorough: bool) {
         for kind in 0..3 {
             let mut mr = reader(kind, pid);
             for (ci, &(start, len)) in cases.iter().enumerate() {
-                let truth: Vec<u8> = (0..len as u64).map(|i| pat(start + i)).collect();
+                let truth: Vec<u8> = (0..len as u64).map(|i| region.truth(start + i).unwrap_or(0)).collect();
                 for api in 0..2 {
                     let res: Result<Vec<u8>, String> = if api == 0 {
                         let mut dst = vec![0xAAu8; len];
